@@ -26,8 +26,6 @@ ALLOW = {
         (1, "per-thread counter of encoded payloads (usize)"),
     (r"RawPointSet<'a, A> as emit_otlp::data::metrics::DataPointBuilder>::into_points$", "index:slice"):
         (2, "slices of the collected points bounded by their own length (read with the code)"),
-    (r"RawPointSet<'a, A> as emit_otlp::data::metrics::DataPointBuilder>::into_points$", "assert:div_zero"):
-        (1, "divides by the number of points, taken only on the non-empty arm"),
     (r"RawPointSet<'a, A> as emit_otlp::data::metrics::DataPointBuilder>::into_points$", "assert:overflow:Add"):
         (1, "timestamp stepping bounded by the extent"),
     (r"PropsSpanAttributes<TR, SP, P> as sval::value::Value>::stream$", "call:unwrap"):
@@ -70,6 +68,34 @@ def sink_bodies(P):
     # not on the emitting thread: transport / worker side
     out = {k for k in out if not re.search(r"client::http|Worker::|ActiveFile|StdFilesystem|bytes::buf|OtlpTransport|spawn", k)}
     return [P.bodies[k] for k in sorted(out)]
+
+
+def tag_overrides_rule(chk, P, key):
+    """sval's provided Stream::tag is what turns `Option::None` (a value tagged RUST_OPTION_NONE) into null and a unit variant into its label.
+    A stream in the OTLP encoders that overrides `tag` keeps that distinction only if it looks at the tag it is given: an override that
+    ignores the tag parameter treats `None` like any other unit (exported as the text "None", or accepted as an empty sample)."""
+    def f():
+        ev = []
+        n = 0
+        for i in P.impls:
+            if i.get("trait") != "sval::stream::Stream":
+                continue
+            for it in i.get("items", ()):
+                if it.get("kind") != "Fn":
+                    continue
+                b = P.bodies.get(it["key"])
+                if b is None or b.crate != "emit_otlp" or "generated" in b.file:
+                    continue
+                n += 1
+                if it["name"] in ("tag", "tagged_begin", "tag_hint"):
+                    if it["name"] == "tag" and not b.uses(2, normal_only=True):
+                        return False, ("%s overrides sval's `tag` without looking at the tag it is given: `Option::None` (tagged RUST_OPTION_NONE, null by "
+                                       "default) is no longer told apart from a unit variant" % b.key), [], b.span
+                    ev.append("%s reads its tag" % b.key)
+        if n < 20:
+            raise mir.AnchorMissing("sval::Stream methods defined by the OTLP encoders (found %d)" % n)
+        return True, "", ev or ["%d Stream methods in the OTLP encoders, none overrides `tag`" % n]
+    chk.ob(key, "no sval stream of the OTLP encoders overrides `tag` without examining the tag (Option::None stays null)", f)
 
 
 def run(chk):
@@ -577,6 +603,7 @@ def run(chk):
     common.variant_arm_agreement_rule(chk, P, "C13.R3:encoding-arms", "protobuf arms use the protobuf encoder and label, JSON arms the JSON ones (the two "
                                       "encodings denote the same records only if neither is mislabelled)",
                                       lambda b: b.crate == "emit_otlp" and "generated" not in b.file and "::tests::" not in b.key, ("Proto", "Json"), 8)
+    tag_overrides_rule(chk, P, "C13.R4:tag-overrides")
     return chk
 
 
